@@ -24,6 +24,7 @@ type c20env struct {
 	ticket   []byte
 	state    *tls.SessionState
 	cacheKey string
+	nilCerts bool // the session is forged the way the README shows: without certificates
 }
 
 // freshPSKExt runs two connections (full, resumed) and returns the initialised PSK
@@ -106,6 +107,15 @@ func TestC20(t *testing.T) {
 		{target: Target{Name: "custom:Chrome_102", Spec: specOfID(tls.HelloChrome_102)}, kind: "ticket", scfg: mkServer(tls.VersionTLS12), hasExt: true},
 		{target: Target{Name: "custom:Chrome_100_PSK", Spec: specOfID(tls.HelloChrome_100_PSK)}, kind: "psk", scfg: mkServer(tls.VersionTLS13), hasExt: true},
 		{target: Target{Name: "Golang", ID: tls.HelloGolang}, kind: "ticket", scfg: mkServer(tls.VersionTLS12), hasExt: false},
+		// forged as the README shows: MakeClientSessionState(ticket, vers, suite, secret, nil, nil)
+		{target: Target{Name: "Chrome_100+forged-without-certs", ID: tls.HelloChrome_100}, kind: "ticket", scfg: mkServer(tls.VersionTLS12), hasExt: true, nilCerts: true},
+		{target: Target{Name: "custom:Firefox_105+forged-without-certs", Spec: specOfID(tls.HelloFirefox_105)}, kind: "ticket", scfg: mkServer(tls.VersionTLS12), hasExt: true, nilCerts: true},
+		// RFC 5077 tickets are not a TLS 1.2 feature: sessions negotiated at TLS 1.1 / 1.0 by
+		// presets that still offer those versions
+		{target: Target{Name: "Firefox_65@tls11", ID: tls.HelloFirefox_65}, kind: "ticket", scfg: mkServer(tls.VersionTLS11), hasExt: true},
+		{target: Target{Name: "Chrome_70@tls10", ID: tls.HelloChrome_70}, kind: "ticket", scfg: mkServer(tls.VersionTLS10), hasExt: true},
+		{target: Target{Name: "custom:Firefox_99@tls11", Spec: specOfID(tls.HelloFirefox_99)}, kind: "ticket", scfg: mkServer(tls.VersionTLS11), hasExt: true},
+		{target: Target{Name: "Chrome_83@tls10", ID: tls.HelloChrome_83}, kind: "ticket", scfg: mkServer(tls.VersionTLS10), hasExt: true},
 	}
 	// a parrot whose spec has no session_ticket extension
 	for _, p := range AllParrots {
@@ -123,6 +133,9 @@ func TestC20(t *testing.T) {
 		}
 		cache := newMapCache()
 		src := Target{Name: "Chrome_102", ID: tls.HelloChrome_102}
+		if e.scfg.MaxVersion < tls.VersionTLS12 {
+			src = e.target // a preset that still offers the old version
+		}
 		h := RunCase(src, GridCase{Server: e.scfg}, "example.test", func(c *tls.Config) { c.ClientSessionCache = cache }, peer.Opts{})
 		if !h.OK() || cache.Any() == nil {
 			r.Inconclusive("cannot obtain a TLS 1.2 session for " + e.target.Name + ": " + h.ErrString())
@@ -132,6 +145,11 @@ func TestC20(t *testing.T) {
 		if ei%2 == 1 {
 			// forged from the known master secret
 			f := tls.MakeClientSessionState(cs.SessionTicket(), cs.Vers(), cs.CipherSuite(), append([]byte(nil), cs.MasterSecret()...), cs.ServerCertificates(), cs.VerifiedChains())
+			f.SetEMS(cs.EMS())
+			cs = f
+		}
+		if e.nilCerts {
+			f := tls.MakeClientSessionState(cs.SessionTicket(), cs.Vers(), cs.CipherSuite(), append([]byte(nil), cs.MasterSecret()...), nil, nil)
 			f.SetEMS(cs.EMS())
 			cs = f
 		}
@@ -217,8 +235,10 @@ func TestC20(t *testing.T) {
 		srv := tls.Server(s, e.scfg)
 		ccfg := peer.ClientConfig("example.test")
 		ccfg.OmitEmptyPsk = true
+		var lastCache tls.ClientSessionCache
 		if j.cache {
-			ccfg.ClientSessionCache = tls.NewLRUClientSessionCache(4)
+			lastCache = tls.NewLRUClientSessionCache(4)
+			ccfg.ClientSessionCache = lastCache
 		}
 		u := tls.UClient(c, ccfg, e.target.ClientID())
 		if e.target.Spec != nil {
@@ -260,7 +280,8 @@ func TestC20(t *testing.T) {
 				}()
 				switch op {
 				case "C":
-					u.SetSessionCache(tls.NewLRUClientSessionCache(4))
+					lastCache = tls.NewLRUClientSessionCache(4)
+					u.SetSessionCache(lastCache)
 				case "W":
 					err = u.BuildHandshakeStateWithoutSession()
 				case "B":
@@ -365,6 +386,21 @@ func TestC20(t *testing.T) {
 				r.Violation(sig, fmt.Sprintf("%s history %s (cache in Config: %v): injected session not resumed (client %v, server %v)", e.target.Name, hist, j.cache, cs.DidResume, ss.DidResume), rep)
 			} else {
 				r.Count("allowed_resumed", 1)
+				// the next, ordinary connection over the same cache (which now holds what the
+				// resumed connection stored) must not be harmed by the injection
+				if lastCache != nil {
+					nt := e.target
+					h2 := RunCase(nt, GridCase{Server: e.scfg}, "example.test", func(c *tls.Config) {
+						c.ClientSessionCache = lastCache
+						c.PreferSkipResumptionOnNilExtension = true
+					}, peer.Opts{})
+					if h2.ClientPanic != "" || !h2.OK() {
+						sig["kind"] = "connection_after_injected_session_failed"
+						r.Violation(sig, fmt.Sprintf("%s history %s: the ordinary connection that followed over the same cache failed: panic=%q %s", e.target.Name, hist, firstLine(h2.ClientPanic), h2.ErrString()), rep)
+					} else {
+						r.Count("follow_up_after_injection_ok", 1)
+					}
+				}
 			}
 		}
 		r.Case(fmt.Sprintf("%s|%s|%v", e.target.Name, hist, j.cache), true)
